@@ -1,4 +1,5 @@
 import Cell2v.Lemmas.Events
+import Cell2v.Lemmas.EventsAlive
 import Cell2v.Lemmas.EventsOwner
 /-!
 C17 — event centres call exactly the current subscribers, once per publication.
@@ -366,6 +367,54 @@ def demo2 (cfg : Cfg) : World :=
     [.sub 0 1 1 true, .sub 0 1 2 true, .sub 0 1 3 true] [])) [.pub 0 1 [5]] [])
 
 example : (demo2 Cfg.fixed).out.take 4 = [.cls 0, .clear 0 [1, 2, 3], .inv 0 0 1 1 [1, 5] [5], .opn 0 0 1 [5]] := by decide
+
+/-! ### "current subscriber" = subscribed and not removed since -/
+
+/-- A subscription lasts until it is removed: a listener whose (successful) subscribe is in the trace and that no
+later unsubscribe hit and no clear of its centre covered is still in the list of exactly that centre and name,
+with the bound arguments it was subscribed with — whatever happened in between (ends of dispatch loops, nested
+publications of the same name to nobody, other listeners coming and going, global publications, drains, direct
+(un)registrations).  No step of the model other than a hitting unsubscribe / clear drops a listener. -/
+theorem subscribed_until_removed {w : World} (h : Reach w) (c e id : Nat) (b : List Nat)
+    (hsub : Tok.sub c e id b true ∈ w.out) (hlive : id ∉ deadOf w.out) :
+    ∃ l ∈ lisOf w c e, l.id = id ∧ l.bound = b := by
+  rcases (reach_alive h).alive c e id b hsub with hd | ⟨l, hl, h1, h2, h3, h4⟩
+  · exact absurd hd hlive
+  · exact ⟨l, lisOf_mem.mpr ⟨hl, h2, h3⟩, h1, h4⟩
+
+/-- `GetSubscribeNum(name)` (and with it `HasSubscribers`): the centre's count is the number of listeners subscribed
+to (c, e) and not removed since, each counted once: the ids in the list are pairwise distinct, and an id is in the
+list exactly when the trace holds its successful subscribe to (c, e) and no removal of it. -/
+theorem subscriber_count_is_live_subscriptions {w : World} (h : Reach w) (c e : Nat) :
+    subNum w c e = ((lisOf w c e).map (·.id)).length ∧ ((lisOf w c e).map (·.id)).Nodup ∧
+    ∀ id, id ∈ (lisOf w c e).map (·.id) ↔ ((∃ b, Tok.sub c e id b true ∈ w.out) ∧ id ∉ deadOf w.out) := by
+  refine ⟨by simp [subNum], ?_, ?_⟩
+  · unfold lisOf
+    exact List.Nodup.sublist (List.Sublist.map _ List.filter_sublist) (reach_ids h).nodup
+  · intro id
+    constructor
+    · intro hm
+      obtain ⟨l, hl, rfl⟩ := List.mem_map.mp hm
+      obtain ⟨hl1, rfl, rfl⟩ := lisOf_mem.mp hl
+      exact ⟨⟨l.bound, (reach_sub h).subtok l hl1⟩, fun hd => (reach_ids h).dead_gone _ hd l hl1 rfl⟩
+    · rintro ⟨⟨b, hb⟩, hd⟩
+      obtain ⟨l, hl, h1, _⟩ := subscribed_until_removed h c e id b hb hd
+      exact List.mem_map.mpr ⟨l, hl, h1⟩
+
+/-- light centre, one-shot listener: listener 1 leaves while name 1 is being delivered, publishes the name again
+(a nested delivery to nobody) and subscribes listener 2 before it returns -/
+def demoLeave : World :=
+  steps 14 (call (steps 3 (call (init Cfg.fixed [(true, false)]
+    [(1, ⟨[1], 8, [.unsub 0 1 1, .pub 0 1 [21], .sub 0 1 2 false]⟩), (2, ⟨[2], 9, []⟩)]) [.sub 0 1 1 false] [])) [.pub 0 1 [5]] [])
+
+theorem demoLeave_reach : Reach demoLeave :=
+  reach_steps (Reach.call _ _ (reach_steps (Reach.call _ _ (Reach.init _ _) rfl) 3) (by decide)) 14
+
+/-- non-vacuity: the hypotheses hold for listener 2 (subscribed inside the listener, after the nested delivery),
+it is the one counted subscriber, and the next publication calls it -/
+example : Tok.sub 0 1 2 [2] true ∈ demoLeave.out ∧ 2 ∉ deadOf demoLeave.out ∧ demoLeave.stack = [] ∧
+    subNum demoLeave 0 1 = 1 ∧ (lisOf demoLeave 0 1).map (·.id) = [2] ∧
+    (steps 4 (call demoLeave [.pub 0 1 [6]] [])).out.take 3 = [.cls 2, .inv 2 0 1 2 [2, 6] [6], .opn 2 0 1 [6]] := by decide
 
 /-! ### the two repaired defects, as they were -/
 
